@@ -1,5 +1,5 @@
-(** C09 — the banded kernel against the reference: soundness of the boolean check and the exhaustive results
-    (all pairs over {a,c,g,t} up to length 3, all pairs over {a,c} up to length 5), evaluated inside the kernel. *)
+(** C09 — the LCS clause as a Prop and as a boolean, soundness of the boolean check and completeness of the
+    enumerations used by the bounded (evaluated) theorems. *)
 From Coq Require Import NArith ZArith List Bool Lia.
 Import ListNotations.
 From OBI.C09 Require Import Model.
@@ -68,15 +68,3 @@ Proof.
   rewrite forallb_forall in H. specialize (H m (zrange_complete (-1) (Z.of_nat n + 2) m ltac:(lia))).
   apply band_spec_ok_sound. exact H.
 Qed.
-
-Lemma band_ok_nucs_3 : band_ok_on nucs 3 = true.
-Proof. vm_cast_no_check (eq_refl true). Qed.
-Lemma band_ok_binary_5 : band_ok_on binary 5 = true.
-Proof. vm_cast_no_check (eq_refl true). Qed.
-
-Lemma band_exact_upto_3 : forall a b m, over nucs a -> over nucs b -> (length a <= 3)%nat -> (length b <= 3)%nat ->
-  -1 <= m <= 4 -> band_spec a b m.
-Proof. intros a b m Ha Hb La Lb Hm. apply (band_ok_on_sound nucs 3 band_ok_nucs_3); assumption. Qed.
-Lemma band_exact_binary_upto_5 : forall a b m, over binary a -> over binary b -> (length a <= 5)%nat -> (length b <= 5)%nat ->
-  -1 <= m <= 6 -> band_spec a b m.
-Proof. intros a b m Ha Hb La Lb Hm. apply (band_ok_on_sound binary 5 band_ok_binary_5); assumption. Qed.
